@@ -50,8 +50,8 @@ Proof. destruct e; simpl; intros; repeat destr_match; reflexivity. Qed.
 Lemma regs_script : forall c me e g th, script (regs c me e g th) = script th.
 Proof. destruct e; simpl; intros; repeat destr_match; reflexivity. Qed.
 
-Lemma to_script_held : forall th, held (to_script th) = held th.
-Proof. unfold to_script; intros. destruct (next_call _ _) as [[u r]|]; reflexivity. Qed.
+Lemma to_script_held : forall au ra th, held (to_script au ra th) = held th.
+Proof. unfold to_script; intros. destruct (next_call _ _ _) as [[u r]|]; reflexivity. Qed.
 
 Lemma note_branch_held : forall cn b th, held (note_branch cn b th) = held th.
 Proof. destruct cn, b; reflexivity. Qed.
@@ -63,7 +63,7 @@ Proof. destruct cn, b; reflexivity. Qed.
 Lemma step1_inv : forall ps c g ts t g' ts',
   step1 ps c g ts t = Some (g', ts') ->
   exists th p i, nth_error ts t = Some th /\ pc th = Some (p, i) /\
-    ((fetch ps p i = None /\ g' = g /\ ts' = set_th ts t (to_script th)) \/
+    ((fetch ps p i = None /\ g' = g /\ ts' = set_th ts t (to_script (auto_reward c g p th) false th)) \/
      (exists gate a th', fetch ps p i = Some (gate, a) /\ step_act c t a p i g th = Some (g', th') /\ ts' = set_th ts t th')).
 Proof.
   unfold step1; intros.
